@@ -30,12 +30,17 @@ for p in props:
                    ("; the user-name grammar, the file-name constants, the codec limit and the salt size are "
                     "additionally REGENERATED from the source on every run (translator harness/cmd/factgen -> "
                     "lean/Whawty/Gen/Facts.lean) and tied to the model by the theorems of Whawty/Props/Gen*.lean. "
-                    if any(m.startswith("Whawty.Props.Gen") for m in c["modules"]) else ". ") + " ".join(c.get("trusted", [])) +
+                    if any(m.startswith("Whawty.Props.Gen") for m in c["modules"]) else ". ") + ("The split function of the codec (scanLengthEncodedString) is TRANSLATED statement by statement from the "
+                    "source on every run (translate.go -> lean/Whawty/Gen/Scan.lean) and proved equal to the model's "
+                    "scan (Props/GenScan.lean: scan_is_source). " if "Whawty.Props.GenScan" in c["modules"] else "") +
+                   " ".join(c.get("trusted", [])) +
                    (" Decided by the run only (partial): " + "; ".join(c["partial"]) if c.get("partial") else ""),
         technique="Lean 4 theorems about a hand-written executable model + differential correspondence (model vs "
                   "real code on generated inputs) + theorem statements evaluated on the real code" +
                   (" + constants and grammar regenerated from the source by a translator on every run"
-                   if any(m.startswith("Whawty.Props.Gen") for m in c["modules"]) else ""),
+                   if any(m.startswith("Whawty.Props.Gen") for m in c["modules"]) else "") +
+                  (" + the codec's split function translated from the source on every run and proved equal to the model's"
+                   if "Whawty.Props.GenScan" in c["modules"] else ""),
     ))
 na = [dict(property_id=p["id"], reason=NOT_APPLICABLE.get(p["id"], "check not built yet in this commit (work in progress; see DESIGN.md section 10)"))
       for p in props if p["id"] not in PROPS]
